@@ -121,6 +121,9 @@ func (k *CommitmentKey[EK, P, N, C]) UnmarshalCBOR(data []byte) error {
 	if err != nil {
 		return errs.Wrap(err).WithMessage("failed to unmarshal commitment key")
 	}
+	if dto == nil {
+		return commitments.ErrIsNil.WithMessage("CommitmentKey DTO is nil")
+	}
 	kk, err := NewCommitmentKey(dto.EncryptionKey)
 	if err != nil {
 		return errs.Wrap(err).WithMessage("invalid commitment key in unmarshalled data")
